@@ -49,7 +49,10 @@ def run_path(cfg, pa, budget=None, inject=None):
 
 
 def nz_rows(W):
-    return int(np.any(np.asarray(W) != 0, axis=1).sum())
+    """number of selected features as the estimators define it: rows whose Euclidean norm is not 0.  (A row of entries around
+    1e-170 has a norm that underflows to 0: it counts as unselected here as it does in `_n_selected_features` — C07 is about
+    the bookkeeping of that count, the meaning of selection is C06's subject.)"""
+    return int((np.linalg.norm(np.asarray(W, dtype=float), axis=1, ord=2) != 0).sum())
 
 
 def pen_of(W):
@@ -309,6 +312,10 @@ def one_case(ctx, cfg, pa, inject, lines, pending, sample):
         ctx.count("side effect (see C12): clf.alpha changed by path" + (" to 0" if run["alpha_after"] == 0 else ""))
     else:
         ctx.count("clf.alpha back at its initial value after path")
+    if init is None:
+        ctx.corr_break("path-trace", inp, "path() finished without a single compute_val_score call: the initial fit was not scored the way "
+                                          "the steps are (the model of _path starts from that call)")
+        return
     oracle(ctx, cfg, pa, run, init, steps, inp)
     lines.append(sl.path_line(d, cfg["kw"]["max_iter"], cfg["kw"]["alpha"], pa, bool(cfg["kw"].get("dynamic", False)),
                               cfg["y"] is not None, init, steps))
@@ -347,6 +354,19 @@ def run(ctx):
         if quick and time.time() - t0 > 40:
             ctx.notes.append(f"quick tier: stopped generating after {it + 1} paths (time box)")
             break
+    # mini-batches with a demanding keep_threshold: the reference best score (initial fit included) and the scores of the steps are
+    # the SAME kind of number (the block-wise validation score), so a step just above keep_threshold * best is kept
+    for it in range(20 if quick else 100):
+        cfg = sl.gen_config(rs, True, quick, family=sl.SPARSE[it % len(sl.SPARSE)])
+        n = len(cfg["X"])
+        cfg["kw"]["batch_size"] = int(rs.choice([2, 3, max(2, n // 2)]))
+        cfg["kw"]["alpha"] = float(rs.choice([0.02, 0.05, 0.2]))     # several steps keep every feature, with scores close to the initial one
+        if "dynamic" in cfg["kw"]:
+            cfg["kw"]["dynamic"] = False
+        pa = dict(alpha_multiplier=float(rs.choice([1.5, 2.0])), min_features=1, keep_threshold=float(rs.choice([1.0, 0.995, 0.99])),
+                  early_stopping_factor=0.99, max_patience=int(rs.choice([1, 2])), restore_best_weights=True)
+        ctx.count("dedicated:mini-batch x keep_threshold~1")
+        one_case(ctx, cfg, pa, None, lines, pending, sample)
     # outside the documented domain, model-only: max_patience = 0
     cfg = sl.gen_config(rs, True, quick, family="SparseLinearModel")
     cfg["kw"]["dynamic"] = False
